@@ -128,6 +128,11 @@ for mut, what in [("no_offset", "binary-search branch of find_edge_pos forgettin
     r = tlc("simple/CsrImpl", "MCCsrImplNeg_%s.cfg" % mut, workers=4, timeout=300)
     expect("CsrImpl mutant %s violates Inv: %s" % (mut, what), any("Invariant Inv is violated" in e for e in r.errors), str(r.errors[:1]))
 
+for mut, what in [("loop_skip", "remove_node skipping the self-loop link (and its edge-map entry)"), ("no_opposite", "remove_node looking for the link with the same direction tag in the other endpoint's vector"),
+                  ("und_key_unsorted", "undirected edge key not ordered")]:
+    r = tlc("simple/GraphMapImpl", "MCGraphMapImplNeg_%s.cfg" % mut, workers=4, timeout=300)
+    expect("GraphMapImpl mutant %s violates Inv: %s" % (mut, what), any("Invariant Inv is violated" in e for e in r.errors), str(r.errors[:1]))
+
 bad = [r for r in results if not r["ok"]]
 os.makedirs(os.path.join(VERIF, "evidence"), exist_ok=True)
 json.dump({"tests": results, "failed": len(bad)}, open(os.path.join(VERIF, "evidence", "selftest.json"), "w"), indent=1)
